@@ -24,6 +24,7 @@ DECIDED = [
     "R-C08-CALL: actor.fn is called only in actor_run as fn(*args, **kwargs, **dependencies) with the converter's unmodified result; the default "
     "converter selects pydantic v2, then v1, then basic",
     "R-C08-EMPTY (transport): the empty payload reaches the converter - no truthiness test on the way (C07's rule reused); R-C08-ALIGN (model config): the pydantic input model keeps default matching (no extra/strict/alias/str_* option, no foreign base)",
+    "R-C08-ALIGN (round 5): unmatched payload entries are handed to **kwargs or to *args, never to both and never dropped when one exists (decided per flag combination on the CFG region governed by the catch-all flags); R-C08-CALL: every path from the actor's return to success passes convert_outputs (no truthiness shortcut)",
 ]
 NOT_DECIDED = ["equality of the arguments produced by the two converters (value level)", "decode(convert_outputs(v)) == v (value level)"]
 ASSUMPTIONS = ["pydantic fills declared defaults unvalidated unless validate_default is configured"]
@@ -39,6 +40,8 @@ def run(ctx: Ctx) -> None:
     sentinel_and_align(ctx)
     empty(ctx)
     call(ctx)
+    extras_once(ctx)
+    result_unconditional(ctx)
     fresh(ctx)
     from .C07 import falsy_tests
 
@@ -364,6 +367,64 @@ def _is_cache(e: ast.AST) -> bool:
         if d and d.split(".")[-1] in CACHES:
             return True
     return False
+
+
+def extras_once(ctx: Ctx, rule="R-C08-ALIGN") -> None:
+    """Payload entries without a matching parameter are handed over exactly once: to **kwargs when there is one, else to *args - never to both."""
+    f = ctx.func(f"{BASIC}.convert_inputs")
+    g = ctx.cfg(f)
+    # the spill = what mutates kwargs / args under the control of a test on the catch-all flags (a call like kwargs.update(...), or stores like kwargs[k] = v in a loop)
+    def succ(t, kind):
+        return [d for d, k in g.succ[t.id] if k == kind]
+
+    region: set[int] = set()
+    for t in g.nodes:
+        if t.kind == "test" and t.ast is not None and any(dotted(x) in ("self.all_kwargs", "self.all_args") for x in ast.walk(t.ast)):
+            rt, rf = flow.reach(g, succ(t, "T"), flow.NORMAL_KINDS, include_start=True), flow.reach(g, succ(t, "F"), flow.NORMAL_KINDS, include_start=True)
+            region |= (rt - rf) | (rf - rt)
+
+    def mutates(n, name):
+        if n.id not in region:
+            return False
+        if n.kind == "call" and isinstance(n.ast.func, ast.Attribute) and dotted(n.ast.func.value) == name:
+            return n.ast.func.attr in ("update", "setdefault", "extend", "append", "insert")
+        return n.kind == "store" and ((n.target or "") == name or (n.target or "").startswith(name + "["))
+
+    spill_kw = [n for n in g.nodes if mutates(n, "kwargs")]
+    spill_pos = [n for n in g.nodes if mutates(n, "args")]
+    ctx.require(bool(spill_kw) and bool(spill_pos), f"{f.qualname}: spill of the remaining payload entries not found")
+
+    def env(akw, aar):
+        def fn(text, node):
+            d = dotted(node)
+            if d == "self.all_kwargs":
+                return akw
+            if d == "self.all_args":
+                return aar
+            return None
+        return {"*catch": fn}
+
+    for akw, aar, want in ((True, True, ("kw",)), (True, False, ("kw",)), (False, True, ("pos",)), (False, False, ())):
+        r = flow.reach_under(g, env(akw, aar), flow.NORMAL_KINDS)
+        got = tuple(k for k, ns in (("kw", spill_kw), ("pos", spill_pos)) if any(n.id in r for n in ns))
+        ctx.check(got == want, rule, f, f"extras with **kwargs={akw}, *args={aar}", f"-> {want or 'dropped'}",
+                  f"BasicConverter.convert_inputs with **kwargs={akw}, *args={aar} hands the unmatched payload entries to {got or 'nobody'} instead of {want or 'nobody'}: "
+                  "an actor with both catch-alls receives every extra entry twice", instance=f"extras[{akw},{aar}]")
+
+
+def result_unconditional(ctx: Ctx, rule="R-C08-CALL") -> None:
+    """Whatever the actor returned - also 0, False, '', [] or None - goes through convert_outputs before it becomes the result."""
+    f = ctx.func(f"{C.PROCESSOR}._actor_run")
+    g = ctx.cfg(f)
+    fn_aw = [n for n in g.nodes if n.kind == "await" and isinstance(n.ast, ast.Await) and any(isinstance(c, ast.Call) and dotted(c.func) == "actor.fn" for c in ast.walk(n.ast))]
+    conv = [n.id for n in g.calls() if isinstance(n.ast.func, ast.Attribute) and n.ast.func.attr == "convert_outputs"]
+    ctx.require(bool(fn_aw) and bool(conv), f"{f.qualname}: actor await / convert_outputs not found")
+    succ = [n.id for n in g.nodes if n.kind == "store" and n.target == "success" and C.is_const(n.meta.get("value"), True)]
+    ctx.require(bool(succ), f"{f.qualname}: success = True not found")
+    ok = all(flow.must_pass(g, a.id, succ, conv, flow.NORMAL_KINDS) for a in fn_aw)
+    ctx.check(ok, rule, f, "every returned value is encoded", "convert_outputs on every path from the actor's return to success",
+              "actor_run reaches success without passing the returned value through convert_outputs on some path (e.g. for falsy results): the stored result of 0 / False / '' / [] "
+              "does not decode to what the actor returned", instance="result encoded unconditionally")
 
 
 def fresh(ctx: Ctx, rule="R-C08-FRESH") -> None:
